@@ -9,7 +9,7 @@ git -C /repo worktree add -q --detach "$W" HEAD || exit 2
 trap 'git -C /repo worktree remove --force "$W" >/dev/null 2>&1' EXIT
 demo="$D/$X.demo_test.go.txt"
 place=$(head -5 "$demo" | grep -o 'place at: [^ ]*' | head -1 | sed 's/place at: //')
-rel=$(echo "$place" | sed -E 's#^/tmp/mut[2345]?/C[0-9]+/##; s#^/<worktree>/##; s#^<worktree>/##')
+rel=$(echo "$place" | sed -E 's#^/tmp/mut[0-9]*/C[0-9]+/##; s#^/<worktree>/##; s#^<worktree>/##')
 [ -z "$rel" ] && { echo "$D $X: cannot find the demo placement"; exit 2; }
 pkgdir=$(dirname "$rel")
 run_demo() { (cd "$W/$pkgdir" && go test -vet=off -count=1 -run 'Mutant|Demo' . 2>&1 | tail -3); }
